@@ -1094,7 +1094,7 @@ func (s *SSEServer) sendSuccessResponse(requestID interface{}, result interface{
 	}
 
 	// Serialize full response.
-	fullResponseData, err := json.Marshal(response)
+	fullResponseData, err := marshalJSONRPCMessage(response)
 	if err != nil {
 		s.logger.Errorf("Error encoding full response: %v", err)
 		return
